@@ -23,8 +23,8 @@ Trace == ndJsonDeserialize("trace.ndjson")
 N == Len(Trace)
 VARIABLES R, n, present, sess, hist, l, seg
 \* The prover is (T, R).  T and IT = InfoTable(T) never change during a segment; they are kept in the TLC register N + seg
-\* (set by Reset, read as T / IT below) instead of in state variables: fingerprinting a 1000-cell table and its hashes at
-\* every step costs 0.2 s per event (measured), the register costs nothing.  n: key width (0: no dictionary);
+\* (set by Reset, read as T / IT below, released with the segment's last event) instead of in state variables, so that a
+\* 1000-cell table and its hashes are not copied into and fingerprinted with every state.  n: key width (0: no dictionary);
 \* present: the keys of the abstract dictionary T denotes; sess: open cursor sessions; hist: every occurrence pruned by
 \* an earlier request of this prover (only used to name findings)
 tvars == <<R, n, present, sess, hist, l, seg>>
@@ -39,17 +39,21 @@ Consume == /\ l' = l + 1 /\ seg' = seg /\ TLCSet(seg, l + 1 - seg)
            /\ ((l = N \/ Trace[IF l = N THEN l ELSE l + 1].k = "Reset") => TLCSet(N + seg, 0))
 Reject(reason, class) == PrintT(<<"NOTE", l, reason, class>>) /\ FALSE
 
-TReset ==
-  /\ E.k = "Reset" /\ l = seg
-  /\ LET T0 == FromJson(E.cells)  R0 == E.roots[1] + 1 IN
-     IF ~(LevelZero(T0) /\ WellFormed(T0)) THEN Reject("domain:tree", "plain")
-     ELSE LET D == IF E.n > 0 THEN DecEdge(T0, R0, E.n, <<>>) ELSE [ok |-> TRUE, items |-> <<>>] IN
-          \* the abstract dictionary decides presence; Lookup (used per request) must agree with it on every item
-          IF ~D.ok \/ \E i \in 1..Len(D.items) : LET lk == Lookup(T0, R0, E.n, D.items[i].k) IN ~(lk.ok /\ lk.found /\ lk.v = D.items[i].v)
-            THEN Reject("domain:not-a-dictionary", "plain")
-          ELSE /\ TLCSet(N + seg, [T |-> T0, IT |-> InfoTable(T0)]) /\ R' = R0 /\ n' = E.n
-               /\ present' = {BitsToStr(D.items[i].k) : i \in 1..Len(D.items)}
-               /\ sess' = <<>> /\ hist' = {}
+\* Heavy evaluation is kept in pure operators (XOutcome) whose result reaches the action as an operator argument:
+\* TLC evaluates such an argument once, whereas a LET around primed conjuncts is re-evaluated at every use (measured:
+\* 39 s instead of 0.3 s for a 750-cell dictionary).
+ResetOutcome(e) ==
+  LET T0 == FromJson(e.cells)  R0 == e.roots[1] + 1 IN
+  IF ~(LevelZero(T0) /\ WellFormed(T0)) THEN [why |-> "domain:tree"]
+  ELSE LET D == IF e.n > 0 THEN DecEdge(T0, R0, e.n, <<>>) ELSE [ok |-> TRUE, items |-> <<>>] IN
+       \* the abstract dictionary decides presence; Lookup (used per request) must agree with it on every item
+       IF ~D.ok \/ \E i \in 1..Len(D.items) : LET lk == Lookup(T0, R0, e.n, D.items[i].k) IN ~(lk.ok /\ lk.found /\ lk.v = D.items[i].v)
+         THEN [why |-> "domain:not-a-dictionary"]
+       ELSE [why |-> "", T |-> T0, IT |-> InfoTable(T0), R |-> R0, present |-> {BitsToStr(D.items[i].k) : i \in 1..Len(D.items)}]
+ResetStep(o) == IF o.why # "" THEN Reject(o.why, "plain")
+                ELSE /\ TLCSet(N + seg, [T |-> o.T, IT |-> o.IT]) /\ R' = o.R /\ n' = E.n
+                     /\ present' = o.present /\ sess' = <<>> /\ hist' = {}
+TReset == E.k = "Reset" /\ l = seg /\ ResetStep(ResetOutcome(E))
 
 \* Cursor(): a new session, empty prune set - whatever earlier sessions pruned
 TCursor == /\ E.k = "Cursor" /\ sess' = NewSession(sess, E.c) /\ UNCHANGED <<R, n, present, hist>>
@@ -60,50 +64,52 @@ TOp == /\ E.k \in {"Ref", "Up", "Prune"}
           ELSE sess' = SessApply(T, R, sess, E.c, o)
        /\ UNCHANGED <<R, n, present, hist>>
 
-\* CreateProof(cursor of session c) = Proof(T, R, prune set of session c)
-TCreate ==
-  /\ E.k = "Create" /\ UNCHANGED <<R, n, present, sess>>
-  /\ IF E.c \notin DOMAIN sess THEN Reject("domain:no-such-session", "plain")
-     ELSE IF E.panic # "" THEN Reject("panic", "plain")
-     ELSE IF E.err # "" THEN Reject("create-proof-error", "plain")
-     ELSE LET PS == sess[E.c].ps
-              wv == WalkVerdict(HexToBytes(E.proof), T, IT, R, PS)
-              \* prunes of earlier requests and of the other sessions of this prover
-              foreign == hist \cup UNION {sess[c2].ps : c2 \in DOMAIN sess \ {E.c}}
-              leak == wv.reason = "pruned-but-not-asked" /\ wv.extra \subseteq foreign
-          IN IF wv.reason # "" THEN Reject(wv.reason, IF leak THEN "leak" ELSE "plain")
-             \* S->C: under the occurrence reading the bag is the very proof the generator computed
-             ELSE IF Has(E, "exphash") /\ wv.sem = "occurrence" /\ BytesToHex(wv.hash) # E.exphash THEN Reject("domain:spec-inconsistent", "plain")
-             ELSE PrintT(<<"SEM", l, wv.sem>>) /\ hist' = hist \cup wv.psp \cup PS
+\* CreateProof(cursor of session c) = Proof(T, R, prune set of session c).   [reason, class, sem, add (to hist)]
+CreateOutcome(e, tT, tIT, tR, ss, hh) ==
+  IF e.c \notin DOMAIN ss THEN [reason |-> "domain:no-such-session", class |-> "plain"]
+  ELSE IF e.panic # "" THEN [reason |-> "panic", class |-> "plain"]
+  ELSE IF e.err # "" THEN [reason |-> "create-proof-error", class |-> "plain"]
+  ELSE LET PS == ss[e.c].ps
+           wv == WalkVerdict(HexToBytes(e.proof), tT, tIT, tR, PS)
+           \* prunes of earlier requests and of the other sessions of this prover
+           foreign == hh \cup UNION {ss[c2].ps : c2 \in DOMAIN ss \ {e.c}}
+           leak == wv.reason = "pruned-but-not-asked" /\ wv.extra \subseteq foreign
+       IN IF wv.reason # "" THEN [reason |-> wv.reason, class |-> IF leak THEN "leak" ELSE "plain"]
+          \* S->C: under the occurrence reading the bag is the very proof the generator computed
+          ELSE IF Has(e, "exphash") /\ wv.sem = "occurrence" /\ BytesToHex(wv.hash) # e.exphash THEN [reason |-> "domain:spec-inconsistent", class |-> "plain"]
+          ELSE [reason |-> "", class |-> "", sem |-> wv.sem, add |-> wv.psp \cup PS]
+CreateStep(o) == IF o.reason # "" THEN Reject(o.reason, o.class) ELSE PrintT(<<"SEM", l, o.sem>>) /\ hist' = hist \cup o.add
+TCreate == E.k = "Create" /\ UNCHANGED <<R, n, present, sess>> /\ CreateStep(CreateOutcome(E, T, IT, R, sess, hist))
 
 \* ProveKeyInHashmap(prover, root, key): its own session; present key => value + ProofOK, absent key => error
-TKey ==
-  /\ E.k = "Key" /\ UNCHANGED <<R, n, present, sess>>
-  /\ LET k  == StrToBits(E.key)
-         lk == Lookup(T, R, n, k)
-         isPresent == E.key \in present
-     IN IF n = 0 \/ Len(k) # n THEN Reject("domain:key-width", "plain")
-        ELSE IF ~lk.ok \/ lk.found # isPresent THEN Reject("domain:spec-inconsistent", "plain")
-        ELSE IF Has(E, "exp") /\ (E.exp.found # isPresent \/ (isPresent /\ E.exp.v # BitsToStr(lk.v.b))) THEN Reject("domain:spec-inconsistent", "plain")
-        ELSE IF E.panic # "" THEN Reject("panic", "plain")
-        ELSE IF ~isPresent THEN (IF E.err # "" /\ E.proof = "" THEN hist' = hist ELSE Reject("absent-key-proved", "plain"))
-        ELSE IF E.err # "" THEN Reject("present-key-error", KeyClass(T, IT, R, n, k))
-        ELSE
-        LET V  == FromJson(E.val.cells)
-            IV == InfoTable(V)
-            vr == E.val.roots[1] + 1
-        IN \* the value returned beside the proof is the value the dictionary holds
-           IF ~(V[vr].b = lk.v.b /\ Len(V[vr].r) = Len(lk.v.r)
-                /\ \A j \in 1..Len(lk.v.r) : ReprHash(IV[V[vr].r[j]]) = ReprHash(IT[lk.v.r[j]])) THEN Reject("returned-value", KeyClass(T, IT, R, n, k))
-           ELSE LET pv == ProofVerdict(HexToBytes(E.proof), T, IT, R, n, k)
-                    kc == KeyClass(T, IT, R, n, k)
-                    \* the pruned branch that hides the key (or part of its value) was pruned by an earlier request
-                    leak == \/ pv.reason = "value:pruned" /\ pv.bad \in hist
-                            \/ pv.reason = "value:refs" /\ \E q \in pv.psp \cap hist : PathPrefix(PathOf(lk), q)
-                \* leak first: an earlier ACCEPTED request pruned that very occurrence, i.e. it passed the same fork on the
-                   \* other side and its own path survived - equal cells at that fork are not what hides the key
-                IN IF pv.reason # "" THEN Reject(pv.reason, IF leak THEN "leak" ELSE kc)
-                   ELSE hist' = hist \cup pv.psp
+KeyOutcome(e, tT, tIT, tR, nn, pres, hh) ==
+  LET k  == StrToBits(e.key)
+      lk == Lookup(tT, tR, nn, k)
+      isPresent == e.key \in pres
+      Out(r, c) == [reason |-> r, class |-> c, add |-> {}]
+  IN IF nn = 0 \/ Len(k) # nn THEN Out("domain:key-width", "plain")
+     ELSE IF ~lk.ok \/ lk.found # isPresent THEN Out("domain:spec-inconsistent", "plain")
+     ELSE IF Has(e, "exp") /\ (e.exp.found # isPresent \/ (isPresent /\ e.exp.v # BitsToStr(lk.v.b))) THEN Out("domain:spec-inconsistent", "plain")
+     ELSE IF e.panic # "" THEN Out("panic", "plain")
+     ELSE IF ~isPresent THEN (IF e.err # "" /\ e.proof = "" THEN Out("", "") ELSE Out("absent-key-proved", "plain"))
+     ELSE IF e.err # "" THEN Out("present-key-error", KeyClass(tT, tIT, tR, nn, k))
+     ELSE
+     LET V  == FromJson(e.val.cells)
+         IV == InfoTable(V)
+         vr == e.val.roots[1] + 1
+     IN \* the value returned beside the proof is the value the dictionary holds
+        IF ~(V[vr].b = lk.v.b /\ Len(V[vr].r) = Len(lk.v.r)
+             /\ \A j \in 1..Len(lk.v.r) : ReprHash(IV[V[vr].r[j]]) = ReprHash(tIT[lk.v.r[j]])) THEN Out("returned-value", KeyClass(tT, tIT, tR, nn, k))
+        ELSE LET pv == ProofVerdict(HexToBytes(e.proof), tT, tIT, tR, nn, k)
+                 \* the pruned branch that hides the key (or part of its value) was pruned by an earlier request
+                 leak == \/ pv.reason = "value:pruned" /\ pv.bad \in hh
+                         \/ pv.reason = "value:refs" /\ \E q \in pv.psp \cap hh : PathPrefix(PathOf(lk), q)
+             \* leak first: an earlier ACCEPTED request pruned that very occurrence, i.e. it passed the same fork on the
+             \* other side and its own path survived - equal cells at that fork are not what hides the key
+             IN IF pv.reason # "" THEN Out(pv.reason, IF leak THEN "leak" ELSE KeyClass(tT, tIT, tR, nn, k))
+                ELSE [reason |-> "", class |-> "", add |-> pv.psp]
+KeyStep(o) == IF o.reason # "" THEN Reject(o.reason, o.class) ELSE hist' = hist \cup o.add
+TKey == E.k = "Key" /\ UNCHANGED <<R, n, present, sess>> /\ KeyStep(KeyOutcome(E, T, IT, R, n, present, hist))
 
 TraceInit == /\ l \in Starts /\ seg = l
              /\ R = 0 /\ n = 0 /\ present = {} /\ sess = <<>> /\ hist = {}
